@@ -62,6 +62,19 @@ def run_check(prop, tier):
         if rc != 0:
             raise vlib.Infra("harness mdnsmgr failed:\n" + out[-3000:])
         print(out.strip())
+        # second pass: the same event sequences as bursts on one processor - the report goroutine spawned last runs first, so
+        # that later snapshots reach the (serialised) report section before earlier ones
+        sp2, obs2 = os.path.join(sc, "scripts-burst.ndjson"), os.path.join(sc, "obs-burst.ndjson")
+        with open(sp2, "w") as f:
+            for s in scripts:
+                f.write(json.dumps(dict(s, id=s["id"] + len(scripts), burst=True)) + "\n")
+        rc, out = vlib.run([binp, "-scripts", sp2, "-obs", obs2, "-summary", os.path.join(sc, "sum2.json")], timeout=3000)
+        if rc != 0:
+            raise vlib.Infra("harness mdnsmgr (bursts) failed:\n" + out[-3000:])
+        print("bursts on one processor:", out.strip())
+        with open(obs, "a") as f:
+            f.write(open(obs2).read())
+        scripts = scripts + [dict(s, id=s["id"] + len(scripts), burst=True) for s in scripts]
         with open(os.path.join(sd, "MonMdnsRun.tla"), "w") as f:
             f.write("---- MODULE MonMdnsRun ----\nEXTENDS MonMdns\n====\n")
         with open(os.path.join(sd, "MonMdnsRun.cfg"), "w") as f:
